@@ -4,6 +4,10 @@ import json, os
 ROOT = os.path.dirname(os.path.abspath(__file__))
 S = 'Engine S: symbolic execution of the clang-14 LLVM IR of the real translation unit (harness #includes the .cpp), z3 decides every assertion and every memory/UB obligation on every path'
 CLAIMED = {
+ 'C27': ('Bounded symbolic check of the control-plane handlers handle_stop / handle_store / handle_fetch (lifted from the current daemon/ControlServer.cpp into a class with a recording node and recording send_response): with a control token configured, a request whose token is absent or any different 2-4 byte string gets an *_UNAUTHENTICATED error and nothing is stored, registered, fetched, written or stopped; the exact token is accepted.',
+         'ControlServer::Impl itself (sockets, accept thread), recv_line / parse_request and handle_client dispatch are not encoded: requests are handed over parsed'),
+ 'C28': ('Bounded symbolic check of STORE admission in the lifted handle_store (size cap, TTL text with symbolic characters against a symbolic window, proof-of-work gate) and of the rate limits: 7 STOREs (13 streamed FETCHes on thorough) from one client address at symbolic times with absent / changing / constant TOKEN headers - at most 6 (12) accepted in any 30 s window.',
+         '"refused before the body is read" (parse_request / recv) is not encoded; store_pow_valid is a stub with an arbitrary verdict (C19); the stream cap is 64 B in the harness'),
  'C37': ('Bounded symbolic check of StructuredLogger::log and its escaping on events / field names / values whose bytes are all symbolic: the record is exactly one line of valid JSON whose strings decode back (RFC 8259 un-escaper) to exactly what was logged.',
          'std::ostringstream / std::clog are source-level sink classes in the engine (validated against the real iostreams on every native replay); symbolic bytes are ASCII plus a fixed valid 2-byte UTF-8 sequence; event 1..2 (3) symbolic bytes, 0..1 (2) fields'),
  'C04': ('Bounded symbolic check of the real ChunkStore with persistence on, its operating-system primitives replaced by a model disk: over every sequence of 3 (quick) / 4 (thorough) put / lookup / sweep operations a chunk file exists only for a stored, not yet cleaned-up chunk, holds the stored bytes and is gone after the cleanup following the expiry (lookup-noticed expiry and failed writes included); restart on the same directory is the open known finding.',
